@@ -68,8 +68,13 @@ class C18(Prop):
                 c['market'] = csv_market(rng, c['assets'], cfg['start'] // DAY, cfg['end'] // DAY, c['exact'])
                 c['stream'] += ':csv'
                 c['extra_queries'] = [[rng.choice(c['assets']), rng.randint(cfg['start'] - 5 * DAY, cfg['end'] + 5 * DAY)] for _ in range(20)]
+                evt = [t for t, _ in sl.event_times(cfg['start'], cfg['end'])]
+                c['extra_queries'] += [[a_, t] for a_ in c['assets'] for t in rng.sample(evt, min(len(evt), 12))]
             c['mode'] = 'twice'
-            if c['market']['kind'] == 'csv' and rng.random() < 0.6:
+            if c['market']['kind'] == 'csv' and rng.random() < 0.3:
+                c['mode'] = 'prequeried'
+                c['stream'] += ':prequeried'
+            elif c['market']['kind'] == 'csv' and rng.random() < 0.6:
                 # the data source first serves a DIFFERENT (later, overlapping or disjoint) session
                 cfg = c['cfg']
                 shift = rng.choice([3, 10, 25, 60, -10, -25, -60]) * DAY
